@@ -26,7 +26,7 @@ for d in benign/*${1:-}*.diff; do
     if [ $rc = 0 ] && ! echo "$out" | grep -q "^VIOLATION"; then ok=$((ok+1)); echo "$n: $p silent $(echo "$out" | grep -o 'exhaustive=[a-z]*')";
     else bad=$((bad+1)); echo "$n: $p ALARM(rc=$rc) $(echo "$out" | grep -m1 'key=' | cut -c1-160)"; fi
   done
-  git -C /repo checkout -- .
+  git -C /repo checkout -- . ; git -C /repo clean -fdq
 done
 echo "benign_regress: $ok silent, $bad alarms"
 [ $bad = 0 ]
